@@ -389,7 +389,8 @@ func defaultsOf(lv leafVals) *EzCfg {
 // per-case variation of the ez call: which entry point, which Params
 type ezVariation struct {
 	entry      int  // 0 ConfigFileEnvFlag+DecoderFromExtension, 1 FileExtensionDecoderConfigEnvFlag, 2 ...DecoderFactoryParams+DecoderFromExtensionWithParams, 3 the format's own entry point, 4 ConfigFileEnvFlag + own factory
-	kebab      bool // FileFieldNameEncoder = kebab-case, DialsTagNameDecoder = lower_snake_case
+	kebab      bool // FileFieldNameEncoder = kebab-case, DialsTagNameDecoder = the caller's own (ownDec) or left nil (Go conventions)
+	ownDec     bool
 	disableSet bool
 	flatAnon   bool
 }
@@ -430,7 +431,11 @@ func ezDecoder(path, format string, v ezVariation) dials.Decoder {
 	}
 	ms := []transform.Mangler{transform.NewAliasMangler(common.DialsTagName)}
 	if v.kebab {
-		ms = append(ms, tagformat.NewTagReformattingMangler(common.DialsTagName, ownTagDecoder, caseconversion.EncodeKebabCase))
+		var dec caseconversion.DecodeCasingFunc = caseconversion.DecodeGoCamelCase // what ez documents for a nil decoder
+		if v.ownDec {
+			dec = ownTagDecoder
+		}
+		ms = append(ms, tagformat.NewTagReformattingMangler(common.DialsTagName, dec, caseconversion.EncodeKebabCase))
 	}
 	if !v.disableSet {
 		ms = append(ms, &transform.SetSliceMangler{})
@@ -488,13 +493,16 @@ func run(raw json.RawMessage) driver.Result {
 	defer os.RemoveAll(dir)
 	format := coqfmt.Pick(r, []string{"json", "yaml", "toml", "cue"})
 	watch := r.Chance(1, 2)
-	vr := ezVariation{entry: r.Intn(5), kebab: r.Chance(1, 4), disableSet: r.Chance(1, 3), flatAnon: r.Chance(1, 2)}
+	vr := ezVariation{entry: r.Intn(5), kebab: r.Chance(1, 4), ownDec: r.Chance(1, 2), disableSet: r.Chance(1, 3), flatAnon: r.Chance(1, 2)}
 	if vr.flatAnon && r.Chance(1, 2) {
 		format = "yaml" // the only format the option matters for
 	}
 	keyFileKey, validKey = "key_file", "valid"
 	if vr.kebab {
-		keyFileKey, validKey = "key-file", "va-lid"
+		keyFileKey = "key-file"
+		if vr.ownDec {
+			validKey = "va-lid"
+		}
 	}
 	// Params.FlattenAnonymousFields reaches the YAML decoder through every entry point that builds the decoder
 	// itself; a plain DecoderFactory (entry 0: ez.DecoderFromExtension) has no access to the Params
@@ -733,7 +741,9 @@ func run(raw json.RawMessage) driver.Result {
 			}
 		}()
 		if vr.kebab {
-			params.DialsTagNameDecoder = ownTagDecoder
+			if vr.ownDec {
+				params.DialsTagNameDecoder = ownTagDecoder
+			}
 			params.FileFieldNameEncoder = caseconversion.EncodeKebabCase
 		}
 		var d *dials.Dials[EzCfg]
